@@ -12,6 +12,8 @@ for d in "$ROOT"/seeded/*/; do
   if [ -n "$sup" ]; then echo "$name: superseded by $sup (written against an earlier tree)"; continue; fi
   oos=$(python3 -c "import json;print('y' if json.load(open('$d/meta.json')).get('out_of_scope') else '')" 2>/dev/null)
   if [ -n "$oos" ]; then echo "$name: out of scope (see meta.json)"; continue; fi
+  nr=$(python3 -c "import json;print('y' if json.load(open('$d/meta.json')).get('not_reached') else '')" 2>/dev/null)
+  if [ -n "$nr" ]; then echo "$name: NOT REACHED by the checks (recorded as such in meta.json and DESIGN.md)"; continue; fi
   by=$(python3 -c "import json;print(' '.join(json.load(open('$d/meta.json')).get('checked_by',[])))" 2>/dev/null)
   [ -n "$by" ] && id=$by   # a change written for one property that belongs to another's check
   if ! git -C "$REPO" apply --check "$d/patch.diff" 2>/dev/null; then echo "$name: PATCH DOES NOT APPLY"; bad=1; continue; fi
